@@ -451,6 +451,54 @@ func C17(tier rt.Tier) int {
 										return
 									}
 								}
+								// 3b. the donor is a LAYERED store whose own trie has moved on since (it replaced every value, so
+								// the nodes of the state being repaired are marked deleted in the donor's upper level while its
+								// lower level still holds them): the repair must still find them
+								if len(remList) > 0 && order[0] == 0 && sort.IntsAreSorted(order) {
+									lower := util.NewMemoryNodeDB()
+									_ = db.Iterate(context.Background(), func(ctx context.Context, key util.Key, node util.Node) error { return lower.PutNode(key, node.CloneNode()) })
+									for i := range donor.keys {
+										_ = lower.PutNode(donor.keys[i], donor.nodes[i].CloneNode())
+									}
+									lvl := util.NewLevelNodeDB(util.NewMemoryNodeDB(), lower, false)
+									dt := util.NewMerklePatriciaTrie(lvl, util.Sequence(origin+1), root, statecache.NewEmpty())
+									for i, k := range keys {
+										var err error
+										if i == 0 && len(keys) > 1 {
+											_, err = dt.Delete(util.Path(k))
+										} else {
+											_, err = dt.Insert(util.Path(k), val("moved-on"))
+										}
+										if err != nil {
+											panic(err)
+										}
+									}
+									for _, via := range []string{"MergeState", "MergeDB"} {
+										sdb := util.NewMemoryNodeDB()
+										_ = db.Iterate(context.Background(), func(ctx context.Context, key util.Key, node util.Node) error { return sdb.PutNode(key, node) })
+										var err error
+										if via == "MergeState" {
+											err = util.MergeState(context.Background(), lvl, sdb)
+										} else {
+											err = util.NewMerklePatriciaTrie(sdb, util.Sequence(tver), root, statecache.NewEmpty()).MergeDB(lvl, root, nil)
+										}
+										fail := ""
+										if err != nil {
+											fail = via + " returned " + err.Error()
+										} else {
+											ts := util.NewMerklePatriciaTrie(sdb, util.Sequence(tver), root, statecache.NewEmpty())
+											if has, err := ts.HasMissingNodes(context.Background()); err != nil || has {
+												fail = fmt.Sprintf("after %s a fresh trie on the store still reports missing nodes (%v, %v)", via, has, err)
+											} else if f := viewOf(util.NewMerklePatriciaTrie(sdb, util.Sequence(tver), root, statecache.NewEmpty()), mdl, paths); f != "" {
+												fail = "after " + via + ": " + f
+											}
+										}
+										if fail != "" {
+											violate("layered-donor:"+via, desc+": repair from a layered donor store whose own trie has moved on: "+fail, replay)
+											return
+										}
+									}
+								}
 								// 3. repair
 								atomic.AddInt64(&repairs, 1)
 								before := donor.fingerprint()
@@ -498,7 +546,7 @@ func C17(tier rt.Tier) int {
 	rep.Set("distinct_nontrivial", int(cases))
 	rep.Set("lookups_judged", int(lookups))
 	rep.Set("repairs_judged", int(repairs))
-	rep.Set("rule", fmt.Sprintf("every content of <= %d of the paths %q (prefix pairs, interior values, prefix-free 4-char paths) x EVERY subset of its reachable non-root nodes removed from the store (all subsets up to 2^9, else all of size <= 3) x trie version equal to / different from the nodes' origin x every order of the donor store's iteration (all permutations up to %d nodes, rotations+reversals above). Oracle: HasMissingNodes <=> some node absent; GetAllMissingNodes, and the keys a full tolerant Iterate reports to its handler and records in GetMissingNodeKeys, == absent nodes whose ancestors are all present; a lookup that crosses an absent node (per the independent canonical trie) returns an error other than 'value not present', all other lookups answer per model; after MergeDB, and after MergeState into a copy of the damaged store: no missing node, full content, same root, every store key == hash of its node, donor node objects unchanged; a MergeDB interrupted by a store write error (every position) returns the error and the same trie keeps reporting exactly what the store still lacks; a Delete on the damaged trie either fails or yields the canonical root of the remaining content; 'states' = contents, 'transitions' = (content, removal subset, version, order) cases", maxKeys, paths, permCap))
+	rep.Set("rule", fmt.Sprintf("every content of <= %d of the paths %q (prefix pairs, interior values, prefix-free 4-char paths) x EVERY subset of its reachable non-root nodes removed from the store (all subsets up to 2^9, else all of size <= 3) x trie version equal to / different from the nodes' origin x every order of the donor store's iteration (all permutations up to %d nodes, rotations+reversals above). Oracle: HasMissingNodes <=> some node absent; GetAllMissingNodes, and the keys a full tolerant Iterate reports to its handler and records in GetMissingNodeKeys, == absent nodes whose ancestors are all present; a lookup that crosses an absent node (per the independent canonical trie) returns an error other than 'value not present', all other lookups answer per model; after MergeDB, and after MergeState into a copy of the damaged store: no missing node, full content, same root, every store key == hash of its node, donor node objects unchanged; the same repairs from a layered donor store whose own trie has replaced every value since (its upper level marks the needed nodes deleted, its lower level holds them); a MergeDB interrupted by a store write error (every position) returns the error and the same trie keeps reporting exactly what the store still lacks; a Delete on the damaged trie either fails or yields the canonical root of the remaining content; 'states' = contents, 'transitions' = (content, removal subset, version, order) cases", maxKeys, paths, permCap))
 	rep.Sample(map[string]any{"content": []string{"aa", "ab", "0a1b"}, "removed": "second-level branch", "trie_version": 5, "order": []int{0}})
 	rep.RunVariant()
 	return rep.End()
